@@ -590,7 +590,7 @@ func internalRoutes(out *sink, p pset, r *rand.Rand, full bool) {
 	nKeys, nDet := 2, 1
 	craftIters := 30000
 	if full {
-		nKeys, nDet, craftIters = 4, 4, 100000
+		nKeys, nDet, craftIters = 6, 5, 100000
 	}
 	for ki := 0; ki < nKeys; ki++ {
 		var seed [32]byte
@@ -605,7 +605,7 @@ func internalRoutes(out *sink, p pset, r *rand.Rand, full bool) {
 		// crafted signatures on the bounds of the rejection loop: searched concurrently, emitted below
 		kinds := []string{"z=bound-1", "z=bound", "r0=bound", "ones=omega"}
 		if full {
-			kinds = append(kinds, "z=bound+1", "r0=bound-1", "r0>bound", "ones=max-1", "ones=0..few")
+			kinds = append(kinds, "z=bound+1", "r0=bound-1", "r0>bound", "ones=max-1")
 		} else if ki != 0 {
 			kinds = []string{"z=bound"}
 		}
